@@ -39,6 +39,10 @@ ASSUMPTIONS = [
     "outside the property's quantifier and are not generated",
 ]
 MIN_NONTRIVIAL = {"quick": 30000, "thorough": 200000}
+
+# extra workload of the thorough tier: the repository's own tests with the cheap monitors
+# of vf/ambient.py attached (never the deciding one; DESIGN 2.8)
+AMBIENT = {"tests": ['test_nastran.py', 'test_n2p.py'], "monitors": ['format'], "quick": False}
 TIMEOUT = {"quick": 1200, "thorough": 7200}
 
 NSLICE = {"quick": 12, "thorough": 16}
